@@ -1410,6 +1410,14 @@ class Lower:
             self.scopes.append([])
             i_s = self.S(init, ind + 1) if init else ''
             lc = self.loopc(ind + 1)
+            if init and '__CPROVER_assigns(' in lc:
+                # variables declared in the loop header belong to the loop's frame: a rewrite that brings its own counter is judged by
+                # the invariant and the postcondition, not by a frame that does not know the counter
+                m_as = re.search(r'__CPROVER_assigns\((.*)\)', lc)
+                for vd in [c0 for c0 in self.inner(init) if c0.get('kind') == 'VarDecl' and c0.get('name')]:
+                    vn = getattr(self, 'rename_id', {}).get(vd.get('id'), self.rename.get(vd['name'], vd['name']))
+                    if m_as and not re.search(r'\b%s\b' % re.escape(vn), m_as.group(1)):
+                        lc = lc.replace('__CPROVER_assigns(', '__CPROVER_assigns(%s, ' % vn, 1)
             c = self.cond(cnd, 'loop') if cnd else ''
             i = self.cond(inc, 'loop') if inc else ''
             self.loop_depth.append(len(self.scopes))
